@@ -704,6 +704,7 @@ def lift_scalar(x):
 # context + explorer
 
 _current = []
+INDEX_FNS = {}  # name -> (z3 function, upper): strictly increasing index lists into [0, upper)
 
 
 def ctx():
